@@ -43,6 +43,7 @@ STATS = Stats()
 
 
 FEAS_TIMEOUT_MS = 1000
+SECOND_OPINION = os.environ.get("PYVC_SECOND_OPINION") == "1"
 
 
 class FreshSolver:
@@ -67,7 +68,17 @@ class FreshSolver:
             else:
                 self.inc.add(f)
 
+    def smt_of_last_query(self):
+        """SMT-LIB text of the last query (path condition + the extras of that check), for a second solver"""
+        s = z3.Solver()
+        for f in self.facts:
+            s.add(f)
+        for f in getattr(self, "_last_extra", ()):
+            s.add(f)
+        return s.to_smt2()
+
     def check(self, *extra, timeout=None):
+        self._last_extra = extra
         if not self.heavy and not any(self._is_heavy(f) for f in extra if not isinstance(f, bool)):
             self.inc.set("timeout", timeout or Z3_TIMEOUT_MS)
             self.inc.push()
@@ -274,6 +285,17 @@ class Ctx:
             if dt > 2.0 and os.environ.get("PYVC_DUMP"):
                 with open(os.path.join(os.environ["PYVC_DUMP"], name.replace("/", "_").replace(":", "_") + ".smt2"), "w") as fh:
                     fh.write(self.solver.to_smt2())
+            if r == z3.unsat and SECOND_OPINION and not name.endswith("::__canary__"):
+                # thorough tier: the same query goes to cvc5; `sat` there is a disagreement (undecided, never a verdict)
+                from . import backends
+
+                v2, out2, dt2 = backends.cvc5_check(self.solver.smt_of_last_query())
+                STATS.by_backend["cvc5:" + v2] = STATS.by_backend.get("cvc5:" + v2, 0) + 1
+                if v2 == "sat":
+                    self.obligations.append((name, "undecided", {"backend": "z3+cvc5", "t": dt + dt2,
+                                                                 "reason": "solver disagreement: z3 unsat, cvc5 sat", **(info or {})}))
+                    return "undecided"
+                info = {**(info or {}), "second_opinion": v2, "backend2": "cvc5-agrees" if v2 == "unsat" else f"cvc5-{v2}"}
             if r == z3.unsat:
                 STATS.by_backend["z3"] += 1
                 extra_info = {}
